@@ -281,7 +281,8 @@ Print Assumptions C10_pinned_with_precision_refuted.
 From Coq Require Import QArith Reals Qreals.
 From Dashu Require Import Float.RoundOpsDeep Float.RoundOpsDeepProof Float.RoundOpsTinyProof Float.RoundPrimGenProof Float.RoundTwiceProof Float.RoundTwiceFloat
   Float.DivMulModel Float.FilterProof Float.F32Flocq Ratio.RatRoundGenProof.
-From DashuGen Require Import RatioSmall RoundPrimGen.
+From Dashu Require Import Float.RoundAssertModel Float.RoundAssertProof Float.FilterLargeProof Float.RoundOpsGenProof.
+From DashuGen Require Import RatioSmall RoundPrimGen ElemParams RoundOpsGen.
 Open Scope Z_scope.
 
 (* ---------------------------------------------------------------- the f32 pre-filter of round_fract (C03's theorem, cited) *)
@@ -470,13 +471,17 @@ Theorem C10_round_fract_generated : forall B cg cl m i f k,
 Proof. exact round_fract_gen_is_model. Qed.
 Print Assumptions C10_round_fract_generated.
 
-Theorem C10_round_fract_assertion_generated : forall B m i f k,
-  round_fract_debug B m i f k = if round_fract_pre_gen B f k then Ok (round_fract B m i f k) else Panic Undocumented.
+(** restated in round 4 for the repaired source (F04: /repo 0cb53f5, the assertion looks at the sizes first and takes
+    usize::MAX = M and the base as written; F05: /repo 0c09fb1, |num| < |den|): the regenerated conditions are the
+    repaired models, and round_fract in a build with debug assertions is still round_fract behind |fract| < B^k *)
+Theorem C10_round_fract_assertion_generated : forall M B, 2 <= B -> forall m i f k,
+  round_fract_pre_gen M B f k = round_fract_pre4 M B f k /\
+  round_fract_debug B m i f k = if round_fract_pre_gen M B f k then Ok (round_fract B m i f k) else Panic Undocumented.
 Proof. exact round_fract_pre_gen_is_model. Qed.
 Print Assumptions C10_round_fract_assertion_generated.
 
 Theorem C10_round_ratio_generated : forall m i n d,
-  round_ratio_gen (round_low_part m) i n d = round_ratio m i n d /\ round_ratio_pre_gen n d = round_ratio_pre n d.
+  round_ratio_gen (round_low_part m) i n d = round_ratio m i n d /\ round_ratio_pre_gen n d = round_ratio_pre4 n d.
 Proof. exact (fun m i n d => conj (round_ratio_gen_is_model m i n d) (round_ratio_pre_gen_is_model n d)). Qed.
 Print Assumptions C10_round_ratio_generated.
 
@@ -568,3 +573,181 @@ Theorem C10_with_precision_twice_directed_eq : forall B, 2 <= B -> forall m s e 
   approx_sig a2 = approx_sig a /\ approx_exp a2 = approx_exp a.
 Proof. exact with_precision_twice_directed_eq. Qed.
 Print Assumptions C10_with_precision_twice_directed_eq.
+
+(* ================================================================ round 4 *)
+
+(* ---------------------------------------------------------------- F04: the debug assertion of round_fract *)
+
+(** the repaired assertion (bit lengths first, B^k only when they do not decide) is the condition |fract| < B^k for
+    EVERY input, any usize::MAX M, any base >= 2 ... *)
+Theorem C10_assertion_repair_same_condition : forall M B, 2 <= B -> forall f k,
+  round_fract_pre4 M B f k = (Z.abs f <? B ^ k).
+Proof. exact round_fract_pre4_eq. Qed.
+Print Assumptions C10_assertion_repair_same_condition.
+
+Theorem C10_round_fract_debug_repaired : forall M B, 2 <= B -> forall m i f k, 0 <= k ->
+  round_fract_debug4 M B m i f k = round_fract_debug B m i f k /\
+  (Z.abs f < B ^ k -> exists r, round_fract_debug4 M B m i f k = Ok r /\ i + adj r = spec_round m (i * B ^ k + f) (B ^ k)) /\
+  (B ^ k <= Z.abs f -> round_fract_debug4 M B m i f k = Panic Undocumented).
+Proof.
+  exact (fun M B HB m i f k Hk => conj (round_fract_debug4_eq M B HB m i f k)
+           (round_fract_debug4_spec M B HB m i f k Hk)).
+Qed.
+Print Assumptions C10_round_fract_debug_repaired.
+
+(** ... and its cost is bounded by the fraction: the power is formed only if the digit count is below the bit length of
+    the fraction, and then has fewer than twice its bits; before the repair it had more than k bits whatever the
+    fraction (FBig::to_int of 1 * 10^isize::MIN: 2^63 digits - witness) *)
+Theorem C10_assertion_cost : forall M B, 2 <= B -> forall f k, 0 <= k -> blen f <= M ->
+  (fract_cheap M B f k = false -> k < blen f /\ B ^ k < 2 ^ (2 * blen f)) /\
+  assert_power_bits_new M B f k <= 2 * blen f /\ k < assert_power_bits_old B f k.
+Proof.
+  exact (fun M B HB f k Hk HM => conj (power_formed_small M B HB f k Hk HM)
+           (conj (assert_new_cost M B HB f k Hk HM) (assert_old_cost B HB f k Hk))).
+Qed.
+Print Assumptions C10_assertion_cost.
+
+Theorem C10_assertion_cost_refuted :
+  assert_power_bits_new (2 ^ 64 - 1) 10 1 (2 ^ 63) = 0 /\ 2 ^ 63 < assert_power_bits_old 10 1 (2 ^ 63) /\
+  round_fract_any4 (2 ^ 64 - 1) 10 MHalfEven 0 1 (2 ^ 63) = Ok NoOp.
+Proof. exact assert_cost_refuted. Qed.
+Print Assumptions C10_assertion_cost_refuted.
+
+(** far below one half the primitive needs no power at all (the oracle's form up to usize::MAX digits) *)
+Theorem C10_round_fract_far_below_half : forall M B, 2 <= B -> forall m i f k,
+  (2 * Z.abs f < B ^ k -> round_fract B m i f k = round_fract_tiny m i f) /\
+  (blen f + 1 <= sat_mul M k (blen B - 1) -> round_fract B m i f k = round_fract_tiny m i f /\ Z.abs f < B ^ k) /\
+  round_fract_any4 M B m i f k = round_fract_debug B m i f k /\
+  round_fract_sz M B m i f k = round_fract B m i f k.
+Proof.
+  exact (fun M B HB m i f k => conj (round_fract_tiny_eq B m i f k) (conj (round_fract_tiny_sizes M B HB m i f k)
+           (conj (round_fract_any4_eq M B HB m i f k) (round_fract_sz_eq M B HB m i f k)))).
+Qed.
+Print Assumptions C10_round_fract_far_below_half.
+
+(** FBig::to_int with the repaired assertion: the same function as before for every implementation of the primitive,
+    and the specification at EVERY exponent (no bound on the number of digits after the radix point) *)
+Theorem C10_to_int_repaired : forall M B, 2 <= B -> forall digits_ub rf m p s e,
+  to_int_full4 M B digits_ub rf m p s e = to_int_full B digits_ub rf m p s e.
+Proof. exact to_int_full4_eq. Qed.
+Print Assumptions C10_to_int_repaired.
+
+Theorem C10_to_int_any_exponent : forall M B, 2 <= B -> forall digits_ub, (forall s, dlen B s <= digits_ub s) ->
+  forall m p s e, is_inf s e = false -> (e < 0 -> s mod B <> 0) ->
+  to_int_full4 M B digits_ub (round_fract_sz M B) m p s e = Ok (to_int_spec B m s e).
+Proof. exact to_int_any_exponent. Qed.
+Print Assumptions C10_to_int_any_exponent.
+
+(* ---------------------------------------------------------------- F05: the assertion of round_ratio *)
+
+(** with |num| < |den| asserted, round_ratio answers iff the documented precondition holds and every answer is the
+    specification's adjustment, for all six modes ... *)
+Theorem C10_round_ratio_repaired : forall m I num den,
+  (den <> 0 -> Z.abs num < Z.abs den ->
+     exists r, round_ratio_pub4 m I num den = Ok r /\
+       I + adj r = spec_round m (Z.sgn den * (I * den + num)) (Z.abs den)) /\
+  (den = 0 \/ Z.abs den <= Z.abs num -> round_ratio_pub4 m I num den = Panic Undocumented) /\
+  (forall r, round_ratio_pub4 m I num den = Ok r ->
+     I + adj r = spec_round m (Z.sgn den * (I * den + num)) (Z.abs den)).
+Proof.
+  exact (fun m I num den => conj (proj1 (round_ratio_pub4_spec m I num den)) (conj (proj2 (round_ratio_pub4_spec m I num den))
+           (fun r H => proj2 (proj2 (proj2 (round_ratio_pub4_sound m I num den r H)))))).
+Qed.
+Print Assumptions C10_round_ratio_repaired.
+
+(** ... it differs from the assertion before the repair at |num| = |den| only ... *)
+Theorem C10_round_ratio_repair_changes_boundary_only : forall m I num den,
+  (Z.abs num <> Z.abs den -> round_ratio_pub4 m I num den = round_ratio_pub m I num den) /\
+  (Z.abs num = Z.abs den -> round_ratio_pub4 m I num den = Panic Undocumented).
+Proof. exact round_ratio_pub4_vs_old. Qed.
+Print Assumptions C10_round_ratio_repair_changes_boundary_only.
+
+(** ... and every shape of argument the workspace passes satisfies it: the remainder of a truncating division by the
+    denominator (repr_div, to_float), or lo * den + r against den * scale (convert_base, to_float with extra digits) *)
+Theorem C10_round_ratio_callers_pass : forall a den lo r D S,
+  (den <> 0 -> round_ratio_pre4 (Z.rem a den) den = true) /\
+  (0 < D -> 0 < S -> Z.abs lo < S -> Z.abs r < D -> 0 <= lo * r -> round_ratio_pre4 (lo * D + r) (D * S) = true).
+Proof. exact (fun a den lo r D S => conj (rem_passes a den) (scaled_rem_passes lo r D S)). Qed.
+Print Assumptions C10_round_ratio_callers_pass.
+
+(* ---------------------------------------------------------------- Round::Reverse (table regenerated by C11) *)
+
+(** a directed mode and its Reverse (ElemParams.reverse_mode_gen, regenerated from the six `impl Round` by C11's
+    translator) return the floor and the ceiling of the exact value, which differ by one unless it is an integer;
+    a nearest mode is its own reverse *)
+Theorem C10_reverse_mode_brackets : forall m N d, 0 < d ->
+  (is_directed m = true ->
+     (spec_round m N d = spec_round MDown N d /\ spec_round (reverse_mode_gen m) N d = spec_round MUp N d) \/
+     (spec_round m N d = spec_round MUp N d /\ spec_round (reverse_mode_gen m) N d = spec_round MDown N d)) /\
+  spec_round MUp N d - spec_round MDown N d = (if N mod d =? 0 then 0 else 1) /\
+  (is_half_mode m = true -> reverse_mode_gen m = m).
+Proof.
+  exact (fun m N d Hd => conj (reverse_pair m N d Hd) (conj (up_minus_down N d Hd) (reverse_nearest m))).
+Qed.
+Print Assumptions C10_reverse_mode_brackets.
+
+(* ---------------------------------------------------------------- the f32 pre-filter with 2^24 and more digits *)
+
+(** from 2^24 digits on `precision as f32` is rounded; the two coarse tests stay sound because the bounds of
+    log2_bounds_large have slack: abstract f32 arithmetic (monotone rounding, conversion within 2^-24, the two literals
+    within 0.9991 / 1.0009), bounds with the slack of the ADJUST factor for numbers of more than two words *)
+Theorem C10_f32_filter_large_abstract : forall B, 2 <= B -> forall (fl : Q -> Q) (cvt : Z -> Q) (lb ub : Z -> Q) (b_lb b_ub c999 c1001 : Q),
+  (forall x y, (x <= y)%Q -> (fl x <= fl y)%Q) ->
+  (forall k, 2 ^ 24 <= k -> (IZR k * (1 - u32) <= Q2R (cvt k) <= IZR k * (1 + u32))%R) ->
+  (forall f, 0 < f -> (Q2R (lb f) <= log2R (IZR f) <= Q2R (ub f))%R) ->
+  (forall f, 2 ^ 128 <= f -> (Q2R (lb f) <= log2R (IZR f) * (1 - u32))%R) ->
+  (forall f, 2 ^ 128 <= f -> (log2R (IZR f) * (1 + u32 - 9 * u32 * u32) - / 1073741824 <= Q2R (ub f))%R) ->
+  (Q2R b_lb <= log2R (IZR B) <= Q2R b_ub)%R ->
+  (Q2R c999 <= 9991 / 10000)%R -> (10009 / 10000 <= Q2R c1001)%R ->
+  forall m i fract k, 2 ^ 24 <= k -> Z.log2 (Z.abs fract) < 2 ^ 34 ->
+  round_fract_f32 fl cvt lb ub b_lb b_ub c999 c1001 B m i fract k = round_fract B m i fract k.
+Proof. exact round_fract_f32_eq_large. Qed.
+Print Assumptions C10_f32_filter_large_abstract.
+
+(** the two products of integer/src/log.rs log2_bounds_large in Flocq's binary32 have that slack, for ANY bounds of the
+    top double word that enclose its logarithm (three roundings cost (1 + u)^3, and (1 + u)^3 (1 - 4u) < 1 - u) *)
+Theorem C10_log2_bounds_large_slack : forall lbs ubs : Z -> Q,
+  (forall h, 0 < h < 2 ^ 128 -> (Q2R (lbs h) <= log2R (IZR h) <= Q2R (ubs h))%R) ->
+  (forall f, 0 < f -> (Q2R (ubig_lb32 lbs f) <= log2R (IZR f) <= Q2R (ubig_ub32 ubs f))%R) /\
+  (forall f, 2 ^ 128 <= f -> (Q2R (ubig_lb32 lbs f) <= log2R (IZR f) * (1 - u32))%R) /\
+  (forall f, 2 ^ 128 <= f -> (log2R (IZR f) * (1 + u32 - 9 * u32 * u32) - / 1073741824 <= Q2R (ubig_ub32 ubs f))%R).
+Proof.
+  exact (fun lbs ubs H => conj (ubig_bounds_sound lbs ubs H) (conj (ubig_lb_slack lbs ubs H) (ubig_ub_slack lbs ubs H))).
+Qed.
+Print Assumptions C10_log2_bounds_large_slack.
+
+(** Round::round_fract as written - binary32 arithmetic of Flocq, TypedReprRef::log2_bounds of the fraction computed
+    from any sound double-word bounds, any sound bounds of the base - is the exact comparison for EVERY digit count
+    (fractions of fewer than 2^34 bits): the f32 filter is no longer "compared only" from 2^24 digits on *)
+Theorem C10_f32_filter_all_digit_counts : forall lbs ubs : Z -> Q,
+  (forall h, 0 < h < 2 ^ 128 -> (Q2R (lbs h) <= log2R (IZR h) <= Q2R (ubs h))%R) ->
+  forall B, 2 <= B -> forall b_lb b_ub : Q, (Q2R b_lb <= log2R (IZR B) <= Q2R b_ub)%R ->
+  forall m i fract k, 0 <= k -> Z.log2 (Z.abs fract) < 2 ^ 34 ->
+  round_fract_f32 fl32 cvt32 (ubig_lb32 lbs) (ubig_ub32 ubs) b_lb b_ub c999_32 c1001_32 B m i fract k = round_fract B m i fract k.
+Proof. exact round_fract_flocq32_all. Qed.
+Print Assumptions C10_f32_filter_all_digit_counts.
+
+(* ---------------------------------------------------------------- the entry-point bodies, regenerated from source *)
+
+(** FBig::{trunc, split_at_point, fract, ceil, floor, round, split_at_point_internal} (float/src/round_ops.rs) and
+    FBig::to_int / Repr::to_int (float/src/convert.rs), translated from the Rust source on every run
+    (coq/gen/RoundOpsGen.v), ARE the entry-point models the theorems above speak about - for every input, infinities
+    included, over any implementation rf of round_fract behind its assertion *)
+Theorem C10_entry_point_bodies_generated : forall B digits_ub (rf : mode -> Z -> Z -> Z -> rounding) p s e,
+  trunc_gen B digits_ub p s e = trunc_full B digits_ub p s e /\
+  split_at_point_gen B digits_ub p s e = split_full B digits_ub p s e /\
+  fract_gen B digits_ub p s e = fract_full B digits_ub p s e /\
+  ceil_gen B digits_ub (round_fract_chk_rf B rf) p s e = ceil_full B digits_ub rf p s e /\
+  floor_gen B digits_ub (round_fract_chk_rf B rf) p s e = floor_full B digits_ub rf p s e /\
+  round_gen B digits_ub (round_fract_chk_rf B rf) p s e = round_full B digits_ub rf p s e /\
+  (forall m, to_int_gen B digits_ub (round_fract_chk_rf B rf) m p s e = to_int_full B digits_ub rf m p s e) /\
+  repr_to_int_gen B digits_ub s e = repr_to_int_full B digits_ub s e /\
+  (e < 0 -> split_internal_gen B digits_ub p s e = split_internal B digits_ub false p s e).
+Proof.
+  exact (fun B dub rf p s e =>
+    conj (trunc_gen_is_model B dub p s e) (conj (split_at_point_gen_is_model B dub p s e) (conj (fract_gen_is_model B dub p s e)
+    (conj (ceil_gen_is_model B dub rf p s e) (conj (floor_gen_is_model B dub rf p s e) (conj (round_gen_is_model B dub rf p s e)
+    (conj (fun m => to_int_gen_is_model B dub rf m p s e) (conj (repr_to_int_gen_is_model B dub s e)
+    (split_internal_gen_is_model B dub p s e))))))))).
+Qed.
+Print Assumptions C10_entry_point_bodies_generated.
